@@ -113,6 +113,24 @@ def _hashable(x):
     return tuple(map(_hashable, x)) if isinstance(x, list) else x
 
 
+def _pin_hypothesis():
+    """Hypothesis mixes constants harvested from every *local* module imported so far into what it generates
+    (providers._get_local_constants).  Which pytableaux logic modules are imported at a given moment depends on which
+    shards a pool worker happened to run before, so generation would not be a pure function of (code, VERIF_SEED).
+    Pin the harvested pool to empty; the global constant pool is unaffected."""
+    try:
+        from hypothesis.internal.conjecture import providers as P
+        empty = P._local_constants.__class__(**{k: type(getattr(P._local_constants, k))(key=getattr(getattr(P._local_constants, k), 'key', None))
+                                                 for k in ('integers', 'floats', 'bytes', 'strings')})
+        P._get_local_constants = lambda: empty
+        return True
+    except Exception:
+        return False
+
+
+PINNED = _pin_hypothesis()
+
+
 def _worker(args):
     modname, shard = args
     t0 = time.time()
